@@ -72,7 +72,20 @@ Definition print_test (t : test) : list tok :=
   | _ => []
   end.
 
-Definition param_text (np : nat) : list tok := flat_map (fun i => [hash_tok; other (48 + N.of_nat i)]) (seq 1 np).
+(* ---- delimiter assignment: the delimiter tokens written after parameter i (1-based) of a \def macro with np parameters
+        ([] = undelimited: the argument is written in braces).  Delimiter tokens are punctuation characters that no printed
+        program text contains.  The assignment is a parameter of the printer (type class: implicit argument of print, mean_of,
+        in_F3 ...; NoDelims = the printing without delimiters) ---- *)
+Definition dchar (c : N) : bool := (c =? 33) || (c =? 44) || (c =? 46) || (c =? 58) || (c =? 59).      (* ! , . : ; *)
+Definition dtok_ok (t : tok) : bool := match t with Tok k [c] => (k =? CC_OTHER) && dchar c | _ => false end.
+Class Delims := { dl : nat -> nat -> list tok; dl_ok : forall np i, forallb dtok_ok (dl np i) = true }.
+#[export] Instance NoDelims : Delims := {| dl := fun _ _ => []; dl_ok := fun _ _ => eq_refl |}.
+
+Section WithDelims.
+Context `{D : Delims}.
+
+Definition undelim (np : nat) : bool := forallb (fun i => match dl np i with [] => true | _ => false end) (seq 1 np).
+Definition param_text (np : nat) : list tok := flat_map (fun i => hash_tok :: other (48 + N.of_nat i) :: dl np i) (seq 1 np).
 
 (* doubled parameter text ##1..##n of a definition written inside a body *)
 Definition param_text2 (np : nat) : list tok := flat_map (fun i => [hash_tok; hash_tok; other (48 + N.of_nat i)]) (seq 1 np).
@@ -90,7 +103,11 @@ Fixpoint printb_node (n : node) : list tok :=
       bg :: print b ++ [eg]
   | NCall nm o args =>
       esc (mname nm) :: match o with Some x => lbr :: print x ++ [rbr] | None => [] end ++
-      (fix pargs (l : list (list node)) : list tok := match l with [] => [] | a :: r => bg :: print a ++ eg :: pargs r end) args
+      (fix pargs (i : nat) (l : list (list node)) : list tok :=
+         match l with
+         | [] => []
+         | a :: r => match dl (length args) i with [] => bg :: print a ++ eg :: pargs (S i) r | d => print a ++ d ++ pargs (S i) r end
+         end) 1%nat args
   | NLet nm tg => [esc s_let; esc (mname nm); other 61; esc (mname tg)]
   | NNewSwitch sw => [esc s_newif; esc (ifname sw)]
   | NSetSwitch sw b => [esc (setname sw b)]
@@ -124,7 +141,11 @@ Fixpoint print_node (n : node) : list tok :=
       bg :: printb b ++ [eg]
   | NCall nm o args =>
       esc (mname nm) :: match o with Some x => lbr :: print x ++ [rbr] | None => [] end ++
-      (fix pargs (l : list (list node)) : list tok := match l with [] => [] | a :: r => bg :: print a ++ eg :: pargs r end) args
+      (fix pargs (i : nat) (l : list (list node)) : list tok :=
+         match l with
+         | [] => []
+         | a :: r => match dl (length args) i with [] => bg :: print a ++ eg :: pargs (S i) r | d => print a ++ d ++ pargs (S i) r end
+         end) 1%nat args
   | NLet nm tg => [esc s_let; esc (mname nm); other 61; esc (mname tg)]
   | NNewSwitch sw => [esc s_newif; esc (ifname sw)]
   | NSetSwitch sw b => [esc (setname sw b)]
@@ -196,7 +217,7 @@ Fixpoint fa_node (x : node) : bool :=
   | NWord _ | NLet _ _ | NNewSwitch _ | NSetSwitch _ _ | NStep _ | NSetC _ _ | NAddC _ _ | NExpandAfter _ _ => true
   | NGroup b => forallb fa_node b
   | NDef _ _ np d b => Nat.eqb np 0 && is_none d && forallb fa_node b
-  | NCall _ o a => opt_ok o && forallb (forallb fa_node) a
+  | NCall _ o a => undelim (length a) && opt_ok o && forallb (forallb fa_node) a
   | NCond t th el => f2_test t && forallb fa_node th && match el with Some e => forallb fa_node e | None => true end
   | NCase a bs el => case_head a bs && forallb (forallb fa_node) bs && match el with Some e => forallb fa_node e | None => true end
   | _ => false
@@ -212,7 +233,7 @@ Fixpoint fb_node (n : nat) (x : node) (d : nat) {struct x} : bool :=
   | NDef _ _ np dflt b =>
       fa_node x || (Nat.eqb np 0 && is_none dflt && match d with O => false | S d' => forallb (fun y => fb_node n y d') b end)
   | NCall _ o a =>
-      fa_node x || (opt_ok o && forallb (fun arg => match d with O => false | S d' => forallb (fun y => fb_node n y d') arg end) a)
+      fa_node x || (undelim (length a) && opt_ok o && forallb (fun arg => match d with O => false | S d' => forallb (fun y => fb_node n y d') arg end) a)
   | NCond t th el =>
       fa_node x ||
       (f2_test t &&
@@ -239,7 +260,7 @@ Fixpoint fi_node (n m : nat) (x : node) (d : nat) {struct x} : bool :=
   | NParam k => Nat.leb 1 k && Nat.leb k n
   | NParam2 k => Nat.leb 1 k && Nat.leb k m
   | NGroup b => match d with O => false | S d' => forallb (fun y => fi_node n m y d') b end
-  | NCall _ o a => opt_ok o && forallb (fun arg => match d with O => false | S d' => forallb (fun y => fi_node n m y d') arg end) a
+  | NCall _ o a => undelim (length a) && opt_ok o && forallb (fun arg => match d with O => false | S d' => forallb (fun y => fi_node n m y d') arg end) a
   | NCond t th el =>
       f2_test t &&
       match d with
@@ -268,8 +289,8 @@ Fixpoint fb3_node (n : nat) (x : node) (d : nat) {struct x} : bool :=
       | O => false
       | S d' =>
           match dflt with
-          | None => Nat.leb 1 np && Nat.leb np 9 && forallb (fun y => fi_node n np y d') b
-          | Some dd => g && Nat.leb (S np) 9 && forallb is_word dd && forallb (fun y => fi_node n (S np) y d') b
+          | None => undelim np && Nat.leb 1 np && Nat.leb np 9 && forallb (fun y => fi_node n np y d') b
+          | Some dd => undelim np && g && Nat.leb (S np) 9 && forallb is_word dd && forallb (fun y => fi_node n (S np) y d') b
           end
       end
   | NCond t th el =>
@@ -294,8 +315,16 @@ Definition BODY_DEPTH : nat := 49.      (* MacroLang.subst is called with fuel 5
 Definition fv_node (x : node) : bool :=
   match x with
   | NWord _ => true
-  | NDef _ _ np None b => Nat.leb 1 np && Nat.leb np 9 && forallb (fun y => fi_node 0 np y BODY_DEPTH) b
+  | NDef _ _ np None b => undelim np && Nat.leb 1 np && Nat.leb np 9 && forallb (fun y => fi_node 0 np y BODY_DEPTH) b
   | _ => false
+  end.
+
+(* arguments of delimited parameters are plain words (no delimiter token can hide in them) *)
+Definition dargs_ok (n : nat) : nat -> list (list node) -> bool :=
+  fix go (i : nat) (l : list (list node)) {struct l} : bool :=
+  match l with
+  | [] => true
+  | a :: r => (match dl n i with [] => true | _ => forallb is_word a end) && go (S i) r
   end.
 
 Fixpoint f2_node (x : node) : bool :=
@@ -307,9 +336,9 @@ Fixpoint f2_node (x : node) : bool :=
       match d with
       | None => Nat.leb np 9 && ((Nat.leb 1 np && forallb (fun y => fb3_node np y BODY_DEPTH) b) ||
                                  (Nat.eqb np 0 && (forallb fa_node b || forallb fv_node b)))
-      | Some dd => g && Nat.leb (S np) 9 && forallb is_word dd && forallb (fun y => fb3_node (S np) y BODY_DEPTH) b
+      | Some dd => undelim np && g && Nat.leb (S np) 9 && forallb is_word dd && forallb (fun y => fb3_node (S np) y BODY_DEPTH) b
       end
-  | NCall _ o a => opt_ok o && forallb (forallb fa_node) a
+  | NCall _ o a => opt_ok o && forallb (forallb fa_node) a && dargs_ok (length a) 1 a
   | NCond t th el => f2_test t && forallb f2_node th && match el with Some e => forallb f2_node e | None => true end
   | NCase a bs el => case_head a bs && forallb (forallb f2_node) bs && match el with Some e => forallb f2_node e | None => true end
   | _ => false
@@ -409,7 +438,7 @@ Fixpoint gsafe (fuel : nat) (e : env) (out : list Z) (ns : list node) : bool :=
         | Some ma, Some mb =>
             match m_n mb, m_default mb, m_default ma with
             | O, None, None =>
-                forallb fa_node (m_body mb) && (match m_body mb with [] => false | _ => true end) &&
+                undelim (m_n ma) && forallb fa_node (m_body mb) && (match m_body mb with [] => false | _ => true end) &&
                 match take_groups (m_n ma) (subst 50 [] (m_body mb)) [] with
                 | Some (args, after) =>
                     gsafe f e out (NCall a None args :: after) &&
@@ -435,9 +464,11 @@ Definition mean_of (m : MacroLang.meaning) : Engine.meaning :=
   | Some d => MNew (S (m_n m)) (Some (print d)) (printb (m_body m))
   end.
 
+End WithDelims.
+
 (* ---- wire: (nodes...) -> ((tok ...) in_F1 gdef_safe in_F2) ---- *)
 Local Open Scope Z_scope.
-Definition print_case (v : val) : val :=
+Definition print_case_with (D : Delims) (v : val) : val :=
   match v with
   | VL l =>
     match mapM (node_of 100) l with
@@ -446,12 +477,32 @@ Definition print_case (v : val) : val :=
     end
   | _ => v_bad_input
   end.
+Definition print_case (v : val) : val := print_case_with NoDelims v.
+
+(* a delimiter assignment read from the wire: ((np i (tok ...)) ...); tokens that are not delimiter characters are dropped *)
+Definition table_dl (tbl : list (nat * nat * list tok)) (np i : nat) : list tok :=
+  match find (fun e => Nat.eqb (fst (fst e)) np && Nat.eqb (snd (fst e)) i) tbl with
+  | Some e => filter dtok_ok (snd e)
+  | None => []
+  end.
+Lemma table_dl_ok tbl np i : forallb dtok_ok (table_dl tbl np i) = true.
+Proof.
+  unfold table_dl. destruct (find _ tbl) as [e|]; [|reflexivity]. induction (snd e) as [|t l IH]; [reflexivity|].
+  cbn [filter]. destruct (dtok_ok t) eqn:E; [cbn [forallb]; now rewrite E|exact IH].
+Qed.
+Definition TableDelims (tbl : list (nat * nat * list tok)) : Delims := {| dl := table_dl tbl; dl_ok := table_dl_ok tbl |}.
+Definition entry_of (v : val) : option (nat * nat * list tok) :=
+  match v with
+  | VL [VI np; VI i; ts] => match Expand.toks_of ts with Some l => Some (Z.to_nat np, Z.to_nat i, l) | None => None end
+  | _ => None
+  end.
+Definition table_of (v : val) : option (list (nat * nat * list tok)) := match v with VL l => mapM entry_of l | _ => None end.
 
 (* ---- the entry of the C02 driver (coq/extract/C02.v): the first integer of a case selects the stream kind ----
    0: Definition.invoke / NewCommand.invoke (Model/Expand.v)      1: the reference evaluator on a program
    2: the expansion engine on a token list; when the case is the printing of a program, the reference evaluator's answer for
       that program comes with it (the Spec oracle of the judge); out of fuel stays a top-level answer
-   3: print / in_F1 / gdef_safe / in_F2 of a program *)
+   3: print / in_F1 / gdef_safe / in_F2 of a program      4: the same under a delimiter assignment given as a table *)
 Definition engine_entry (x : val) (more : list val) : val :=
   match Engine.run_case x with
   | VL [VI (-3)] => v_outoffuel
@@ -464,5 +515,6 @@ Definition c02_entry (v : val) : val :=
   | VL [VI 2; x] => engine_entry x []
   | VL [VI 2; x; p] => engine_entry x [MacroLang.run_prog p]
   | VL [VI 3; p] => print_case p
+  | VL [VI 4; t; p] => match table_of t with Some tbl => print_case_with (TableDelims tbl) p | None => v_bad_input end
   | _ => v_bad_input
   end.
